@@ -20,17 +20,25 @@ package main
 //           probe at the end (another node sends a message).
 
 import (
+	"crypto/ecdsa"
+	"crypto/elliptic"
+	"crypto/rand"
+	"crypto/tls"
+	"crypto/x509"
+	"crypto/x509/pkix"
 	"encoding/json"
 	"fmt"
 	"io"
 	"log"
 	"log/slog"
+	"math/big"
 	"net"
 	"os"
 	"runtime"
 	"strconv"
 	"strings"
 	"sync"
+	"sync/atomic"
 	"time"
 
 	"github.com/anthdm/hollywood/actor"
@@ -49,6 +57,14 @@ type r17Case struct {
 	NTargets int `json:"ntargets"`
 	M        int `json:"m"`
 	N        int `json:"n"`
+	// up: the goroutine senders with a PID (odd indices) all use the same id, every other one behind a foreign
+	// address (messages forwarded on behalf of an actor of the same name on another node)
+	Twins bool `json:"twins"`
+	// down: both nodes speak TLS (self-signed certificate made for the run)
+	Tls bool `json:"tls"`
+	// stop: after the calls, Racers goroutines call Stop at the same moment on a fresh started remote, RaceRounds times
+	Racers     int `json:"racers"`
+	RaceRounds int `json:"race_rounds"`
 	// stop
 	Calls       []string `json:"calls"`
 	EngineProbe bool     `json:"engine_probe"`
@@ -95,6 +111,18 @@ type r17Obs struct {
 }
 
 var r17Counter int
+var r17Twins bool
+
+// r17Me: the PID that sender i (a goroutine calling SendWithSender) gives as its own
+func r17Me(a *r17Node, i int, tag string) *actor.PID {
+	if r17Twins {
+		if i%4 == 3 {
+			return actor.NewPID("elsewhere.invalid:9", "snd/twin"+tag)
+		}
+		return actor.NewPID(a.addr, "snd/twin"+tag)
+	}
+	return actor.NewPID(a.addr, "snd/"+strconv.Itoa(i)+tag)
+}
 
 func quiet() {
 	// many harness processes run side by side: a few threads each are enough
@@ -168,6 +196,41 @@ type r17Node struct {
 	e    *actor.Engine
 	r    *remote.Remote
 	addr string
+}
+
+// r17TLS: one self-signed certificate per process, accepted by both sides
+var r17TLSConf *tls.Config
+
+func r17TLS() *tls.Config {
+	if r17TLSConf != nil {
+		return r17TLSConf
+	}
+	key, err := ecdsa.GenerateKey(elliptic.P256(), rand.Reader)
+	if err != nil {
+		panic(err)
+	}
+	tmpl := &x509.Certificate{SerialNumber: big.NewInt(1), Subject: pkix.Name{CommonName: "hv"},
+		NotBefore: time.Now().Add(-time.Hour), NotAfter: time.Now().Add(24 * time.Hour),
+		KeyUsage: x509.KeyUsageDigitalSignature | x509.KeyUsageCertSign, ExtKeyUsage: []x509.ExtKeyUsage{x509.ExtKeyUsageServerAuth, x509.ExtKeyUsageClientAuth},
+		BasicConstraintsValid: true, IsCA: true}
+	der, err := x509.CreateCertificate(rand.Reader, tmpl, tmpl, &key.PublicKey, key)
+	if err != nil {
+		panic(err)
+	}
+	r17TLSConf = &tls.Config{Certificates: []tls.Certificate{{Certificate: [][]byte{der}, PrivateKey: key}}, InsecureSkipVerify: true}
+	return r17TLSConf
+}
+
+func r17StartTLS(addr string, useTLS bool) (*r17Node, error) {
+	if !useTLS {
+		return r17Start(addr)
+	}
+	r := remote.New(addr, remote.NewConfig().WithTLS(r17TLS()))
+	e, err := actor.NewEngine(actor.NewEngineConfig().WithRemote(r))
+	if err != nil {
+		return nil, err
+	}
+	return &r17Node{e: e, r: r, addr: addr}, nil
 }
 
 func r17Start(addr string) (*r17Node, error) {
@@ -244,7 +307,7 @@ func r17Send(a *r17Node, senders []bool, targets []*actor.PID, from, per int, ta
 			a.e.Send(pid, r17Trigger{})
 			go func() { defer wg.Done(); <-sa.done }()
 		default:
-			me := actor.NewPID(a.addr, "snd/"+strconv.Itoa(i)+tag)
+			me := r17Me(a, i, tag)
 			go func() { defer wg.Done(); prog(func(to *actor.PID, m any) { a.e.SendWithSender(to, m, me) }) }()
 		}
 	}
@@ -255,6 +318,9 @@ func r17Expect(a *r17Node, senders []bool, tag string) func(int) *actor.PID {
 	return func(i int) *actor.PID {
 		if i < 0 || i >= len(senders) || !senders[i] {
 			return nil
+		}
+		if i%2 == 1 {
+			return r17Me(a, i, tag)
 		}
 		return actor.NewPID(a.addr, "snd/"+strconv.Itoa(i)+tag)
 	}
@@ -409,7 +475,7 @@ func (m *r17Monitor) snap() (int, [][3]int, int) {
 
 func r17Down(c r17Case) (obs r17Obs) {
 	obs.Kind = "down"
-	a, err := r17Start(r17Addr(0))
+	a, err := r17StartTLS(r17Addr(0), c.Tls)
 	if err != nil {
 		obs.Err = err.Error()
 		return
@@ -450,7 +516,7 @@ func r17Down(c r17Case) (obs r17Obs) {
 		obs.Dead1 = [][3]int{}
 	}
 	// ---- the peer comes up on that address
-	b, err := r17Start(peerAddr)
+	b, err := r17StartTLS(peerAddr, c.Tls)
 	if err != nil {
 		obs.Err = "peer: " + err.Error()
 		return
@@ -827,6 +893,44 @@ func r17Stop(c r17Case) (obs r17Obs) {
 		}
 		obs.Calls = append(obs.Calls, [2]bool{failed, r17Listening(addr)})
 	}
+	// several callers stop one running remote at the same moment: nobody may block (the observation of
+	// the last "stop" call is overwritten with (blocked, listening) of the first round that is not clean)
+	for round := 0; round < c.RaceRounds && !obs.Hang; round++ {
+		r17Counter++
+		raddr := r17Addr(2)
+		rr := remote.New(raddr, remote.NewConfig())
+		if _, err := actor.NewEngine(actor.NewEngineConfig().WithRemote(rr)); err != nil {
+			obs.Err = "race round: " + err.Error()
+			return
+		}
+		var ready, done sync.WaitGroup
+		var gate atomic.Bool
+		for g := 0; g < c.Racers; g++ {
+			ready.Add(1)
+			done.Add(1)
+			go func() {
+				defer done.Done()
+				ready.Done()
+				// a short spin (never longer than 50 ms) releases the callers within nanoseconds of each other
+				for t0 := time.Now(); !gate.Load() && time.Since(t0) < 50*time.Millisecond; {
+				}
+				for !gate.Load() {
+					runtime.Gosched()
+				}
+				rr.Stop().Wait()
+			}()
+		}
+		ready.Wait()
+		gate.Store(true)
+		fin := make(chan struct{})
+		go func() { done.Wait(); close(fin) }()
+		select {
+		case <-fin:
+		case <-time.After(40 * time.Second): // a caller stuck on the stop channel stays stuck for ever
+			obs.Hang = true
+			obs.Calls = append(obs.Calls, [2]bool{true, r17Listening(raddr)})
+		}
+	}
 	if c.EngineProbe {
 		// another node sends a message to an actor of this one
 		o, err := r17Start(r17Addr(1))
@@ -864,6 +968,7 @@ func runRemote17(raw json.RawMessage) (res any, err error) {
 		return nil, err
 	}
 	r17Counter++
+	r17Twins = c.Twins
 	t0 := time.Now()
 	var obs r17Obs
 	func() {
